@@ -3,7 +3,7 @@ capture_count}: the index an instruction carries names exactly the constant / ca
 exact — or a diagnostic has been recorded (and then nothing from this text runs); the u8 capture counter cannot overflow."""
 UNIT = dict(
   name='limitsc',
-  properties=['C15', 'C06', 'C02'],
+  properties=['C15', 'C06', 'C02', 'C01'],
   items=[
     ('laythe_vm/src/byte_code.rs', ['struct Label', 'enum CaptureIndex', 'enum SymbolicByteCode']),
     ('laythe_core/src/object/fun.rs', ['struct FunBuilder', ('impl FunBuilder', ['inc_capture', 'capture_count'])]),
